@@ -167,6 +167,19 @@ def check(ctx, which, classes, an, dxs, wit):
             if edges - sp != exp["callgraph"] - sp:
                 viol("callgraph-edges", "call graph edges differ from the reported callees", {"missing": sorted(exp["callgraph"] - edges)[:5], "extra": sorted(edges - sp - exp["callgraph"])[:5]})
             ctx.count("callgraphs_checked")
+            # variants: dropping isolated nodes must not drop edges; a class filter keeps exactly the edges leaving that class
+            import re as _re
+            cg2 = an.get_call_graph(no_isolated=True)
+            edges2 = {(mkey_of(a), mkey_of(b)) for a, b in cg2.edges()}
+            if edges2 != edges:
+                viol("callgraph-no-isolated-loses-edges", "get_call_graph(no_isolated=True) has other edges than the default graph", {"missing": sorted(edges - edges2)[:5], "extra": sorted(edges2 - edges)[:5]})
+            some = classes[len(classes) // 2].name
+            cg3 = an.get_call_graph(classname=_re.escape(some))
+            edges3 = {(mkey_of(a), mkey_of(b)) for a, b in cg3.edges()}
+            want3 = {e for e in edges if e[0][0] == some}
+            if edges3 != want3:
+                viol("callgraph-class-filter", "get_call_graph(classname=X) does not have exactly the edges leaving X", {"class": some, "missing": sorted(want3 - edges3)[:5], "extra": sorted(edges3 - want3)[:5]})
+            ctx.count("callgraph_variants_checked", 2)
         except Exception as e:
             viol("callgraph-raises", "get_call_graph raises", {"exc": exc_str(e)})
         for c in classes:
